@@ -820,6 +820,13 @@ def gen_same(tier, seed, env_text):
                  {"f": "K.c", "args": [d1], "ret": d2, "ys": []}]
         cases.append({"type": "same", "calls": calls, "k": 3, "rw": "NONE", "variants": variants(3, 4 if q else 8),
                       "family": "shared parameter name, different TypedDicts"})
+        # ... the same KEYS with other value types (two classes with one header and one set of field names)
+        d1s = absmodel.T("dict", "", [absmodel.T("pair", "", [absmodel.T("str", "a"), absmodel.T("str", "s")])])
+        calls2 = [{"f": "f0", "args": [d1, NONE], "ret": NONE, "ys": []}, {"f": "K.m", "args": [d1s], "ret": NONE, "ys": []}]
+        vs2 = variants(2, 4 if q else 8) + [{"order": [0, 1], "split": [1], "days": [2, 0], "seed": 3}, {"order": [0, 1], "split": [1], "days": [0, 2], "seed": 4},
+                                            {"order": [1, 0], "split": [1], "days": [2, 0], "seed": 5}]
+        cases.append({"type": "same", "calls": calls2, "k": 3, "rw": "NONE", "variants": vs2,
+                      "family": "shared parameter name, TypedDicts with the same keys and other value types"})
     # traces of one function that differ in ONE stored column only (yield type / return type / one argument)
     for g in range(4 if q else 30):
         a, b = rng.sample([absmodel.T("atom", "int"), absmodel.T("str", "s"), NONE, absmodel.T("atom", "float"), absmodel.T("list", "", [absmodel.T("atom", "int")])], 2)
